@@ -69,11 +69,129 @@ pub fn elementwise(r: &dyn Runner, tier: Tier, st: &St, out: &mut Vec<Edge>) {
     }
 }
 
+fn pats_upto(n: usize) -> Vec<Pat> {
+    let mut v = Vec::new();
+    for k in 0..=n { for bits in 0..(1u16 << k) { v.push(Pat { n: k as u8, bits }); } }
+    v
+}
+
+fn small_pats(k: usize) -> Vec<Pat> {
+    // none, F, B, FB, all-front(+1 extra call)
+    let mut v = vec![Pat::none(), Pat { n: 1, bits: 0 }, Pat { n: 1, bits: 1 }, Pat { n: 2, bits: 0b10 }, Pat::front(k as u8 + 1)];
+    v.dedup();
+    v
+}
+
+fn forms_for(a: usize, b: usize, len: usize) -> Vec<Form> {
+    [Form::Excl, Form::RangeStruct, Form::Incl, Form::To, Form::ToIncl, Form::From, Form::Full, Form::ExStart, Form::ExStartIncl]
+        .into_iter().filter(|f| crate::exec_range::form_ok(*f, a, b, len)).collect()
+}
+
+/// drain / splice families (C02)
+pub fn ranges(r: &dyn Runner, tier: Tier, st: &St, with_splice: bool, out: &mut Vec<Edge>) {
+    let len = st.len as usize;
+    let sk = sinks(r, tier);
+    let max_rn: u8 = if tier == Tier::Quick { 2 } else { 3 };
+    for a in 0..=len {
+        for b in a..=len {
+            let k = b - a;
+            let (a8, b8) = (a as u8, b as u8);
+            // every RangeBounds form, trivial and full-front consumption
+            for f in forms_for(a, b, len) {
+                for api in [Api::Erased, Api::Typed] {
+                    for pat in [Pat::none(), Pat::front(k as u8)] {
+                        out.push(Edge::Drain { api, a: a8, b: b8, form: f, pat, sink: Sink::Downcast });
+                        if with_splice { out.push(Edge::Splice { api, a: a8, b: b8, form: f, pat, sink: Sink::Downcast, rn: 1, rsrc: RSrc::W, lie: 0 }); }
+                    }
+                }
+            }
+            // plain form x every consumption pattern (incl. calls after exhaustion) x sink
+            for pat in pats_upto(k + 2) {
+                out.push(Edge::Drain { api: Api::Typed, a: a8, b: b8, form: Form::Excl, pat, sink: Sink::Downcast });
+                for s in &sk { out.push(Edge::Drain { api: Api::Erased, a: a8, b: b8, form: Form::Excl, pat, sink: *s }); }
+                if with_splice {
+                    for rn in 0..=max_rn {
+                        out.push(Edge::Splice { api: Api::Typed, a: a8, b: b8, form: Form::Excl, pat, sink: Sink::Downcast, rn, rsrc: RSrc::W, lie: 0 });
+                        for s in [Sink::Drop, Sink::Downcast] { out.push(Edge::Splice { api: Api::Erased, a: a8, b: b8, form: Form::Excl, pat, sink: s, rn, rsrc: RSrc::W, lie: 0 }); }
+                    }
+                }
+            }
+            // every replacement source x length x sink with the small pattern set
+            if with_splice {
+                let mut rs = vec![RSrc::W, RSrc::R, RSrc::BDrain];
+                if r.cloneable() { rs.push(RSrc::LzRefs); }
+                if r.elem_size() == 0 { rs.retain(|x| *x != RSrc::R); }
+                for rsrc in rs {
+                    for rn in 0..=max_rn {
+                        for pat in small_pats(k) {
+                            for s in &sk {
+                                let uses_b = matches!(s, Sink::MutMoveB | Sink::PushB | Sink::InsertB0 | Sink::LazyB(_));
+                                if uses_b && matches!(rsrc, RSrc::BDrain | RSrc::LzRefs) { continue; }
+                                out.push(Edge::Splice { api: Api::Erased, a: a8, b: b8, form: Form::Excl, pat, sink: *s, rn, rsrc, lie: 0 });
+                            }
+                        }
+                    }
+                }
+            }
+        }
+    }
+    // invalid ranges around the boundary and at usize::MAX
+    let mut vals: Vec<u8> = (0..=(len + 1) as u8).collect();
+    vals.push(254); vals.push(255);
+    for &a in &vals {
+        for &b in &vals {
+            let (ua, ub) = (ix(a), ix(b));
+            if crate::exec_range::range_valid(ua, ub, len) { continue; }
+            for f in [Form::Excl, Form::Incl, Form::ExStart, Form::ExStartIncl] {
+                if !crate::exec_range::form_ok(f, ua, ub, len) { continue; }
+                for api in [Api::Erased, Api::Typed] {
+                    out.push(Edge::Drain { api, a, b, form: f, pat: Pat::none(), sink: Sink::Drop });
+                    if with_splice { out.push(Edge::Splice { api, a, b, form: f, pat: Pat::none(), sink: Sink::Drop, rn: 1, rsrc: RSrc::W, lie: 0 }); }
+                }
+            }
+        }
+    }
+    for api in [Api::Erased, Api::Typed] {
+        for o in [OverflowRange::EndInclMax, OverflowRange::StartExclMax, OverflowRange::StartExclMaxEndIncl] {
+            out.push(Edge::DrainOverflow(api, o));
+            if with_splice { out.push(Edge::SpliceOverflow(api, o)); }
+        }
+    }
+}
+
+/// iterator protocol (C14)
+pub fn iter_protocol(_r: &dyn Runner, _tier: Tier, st: &St, out: &mut Vec<Edge>) {
+    let len = st.len as usize;
+    for api in [Api::Erased, Api::Typed] {
+        for kind in [IterKind::Iter, IterKind::IterMut, IterKind::IntoIterRef, IterKind::IntoIterMut] {
+            for pat in pats_upto(len + 3) {
+                let shared = matches!(kind, IterKind::Iter | IterKind::IntoIterRef);
+                out.push(Edge::IterProto { api, kind, pat, clone_at: pat.n + 1 });
+                if shared { for c in 0..=pat.n { out.push(Edge::IterProto { api, kind, pat, clone_at: c }); } }
+            }
+        }
+    }
+    // range iterators: every sub-range x every pattern, items observed by value
+    for a in 0..=len { for b in a..=len {
+        for pat in pats_upto(b - a + 3) {
+            for api in [Api::Erased, Api::Typed] {
+                out.push(Edge::Drain { api, a: a as u8, b: b as u8, form: Form::Excl, pat, sink: Sink::Downcast });
+                out.push(Edge::Splice { api, a: a as u8, b: b as u8, form: Form::Excl, pat, sink: Sink::Downcast, rn: 1, rsrc: RSrc::W, lie: 0 });
+            }
+        }
+    } }
+    // state changers so that the BFS reaches every (len, cap)
+    out.push(Edge::Push(Api::Typed, Src::W));
+    out.push(Edge::Pop(Api::Typed, Sink::Downcast));
+}
+
 pub fn edges_for(prop: Prop, tier: Tier, r: &dyn Runner, st: &St) -> Vec<Edge> {
     let mut v = Vec::new();
     match prop {
         Prop::C01 => elementwise(r, tier, st, &mut v),
-        Prop::C03 | Prop::C05 => elementwise(r, tier, st, &mut v),
+        Prop::C02 => { ranges(r, tier, st, true, &mut v); v.push(Edge::Push(Api::Typed, Src::W)); v.push(Edge::Pop(Api::Typed, Sink::Downcast)); }
+        Prop::C14 => iter_protocol(r, tier, st, &mut v),
+        Prop::C03 | Prop::C05 => { elementwise(r, tier, st, &mut v); ranges(r, tier, st, true, &mut v); }
         _ => {}
     }
     v
